@@ -476,10 +476,26 @@ Definition wf (g : gstate) : Prop := forall i, In i (g_insts g) -> srv_wf (i_ser
 
 (* the faithful model leaves something behind exactly through: hooks of `on` (not on the SIGUSR1 path),
    the htpasswd cache, the rollers of startup callbacks that ran, listeners opened before a failing one *)
-Definition harmless (m : mode) (c : cfg) : bool :=
+Definition harmless0 (m : mode) (c : cfg) : bool :=
   (match m with Sigusr1 => true | _ => no_on (c_effs c) end)
   && no_auth (c_effs c)
   && (match m with Validate | Execute => true | _ => no_log (c_effs c) && listen_safe (c_addrs c) end).
+
+(* only what an attempt reaches matters: nothing of a configuration that does not parse; of one with a
+   bad directive the directives before it, without the startup callbacks they merely schedule *)
+Fixpoint cut_bad (effs : list effect) : list effect * bool :=
+  match effs with
+  | [] => ([], false)
+  | EBad :: _ => ([], true)
+  | x :: r => let '(p, b) := cut_bad r in (x :: p, b)
+  end.
+Definition not_log (x : effect) : bool := match x with ELog _ _ _ => false | _ => true end.
+Definition reached (c : cfg) : cfg :=
+  if negb (parse_ok c) then {| c_id := c_id c; c_parse := c_parse c; c_effs := []; c_addrs := [] |}
+  else let '(pre, bad) := cut_bad (c_effs c) in
+       if bad then {| c_id := c_id c; c_parse := PNone; c_effs := filter not_log pre ++ [EBad]; c_addrs := [] |}
+       else c.
+Definition harmless (m : mode) (c : cfg) : bool := harmless0 m (reached c).
 
 Fixpoint attempts_failed (h : list op) (rs : list outcome) : Prop :=
   match h, rs with
